@@ -20,6 +20,9 @@ def leaf_replay(strings_from):
         cands.append(s + b"\n")
         cands.append(s + b" rax, rcx\n")
         cands.append(b"nop\n" + s + b"\nnop\n")
+        # an operand that a keyword scan leaves blank or empty
+        for kwd in (b"push byte", b"mov rax, qword", b"jmp short", b"inc word", b"jmp far qword"):
+            cands.append(kwd + s + b"\n")
         for pre in (b"mov rax, ", b"mov ", b"lea rax, ", b"jmp ", b"add qword ", b"vpaddd ymm0, ymm1, ", b""):
             for post in (b"", b", rax", b", 1"):
                 cands.append(pre + s + post + b"\n")
